@@ -264,4 +264,13 @@ theorem C06_collection_generated (D : Desc) (s : St) (i : SvcIn) :
        else (Gen.parse_command_args_body D (r.1.chkUb r.1.cmd.isSome), Gen.CAT_STATUS_BUSY)) :=
   parseCommandArgs_generated D s i
 
+/-- what each handler of the command machine and of the unsolicited machine is called with — the write handler with the
+command buffer, `length` and `index`; the run handler with the command alone; read and test handlers with their own
+machine's buffer, position and capacity — is re-recognised in the call expressions of `process_write_loop`,
+`process_run_loop`, `call_cmd_read_by_fsm` and `call_cmd_test_by_fsm` on every run (translator item T19) -/
+theorem C06_handler_calls_generated (D : Desc) (s : St) (f : Fsm) (i : SvcIn) :
+    processWriteLoop D s i = Gen.process_write_loop_fn D s i ∧ processRunLoop D s i = Gen.process_run_loop_fn D s i ∧
+    processReadLoop D s f i = Gen.process_read_loop_fn D s f i ∧ processTestLoop D s f i = Gen.process_test_loop_fn D s f i :=
+  ⟨rfl, rfl, rfl, rfl⟩
+
 end Cat
